@@ -314,7 +314,7 @@ func c23Rotate(c *core.Ctx, work, dir string, opt badger.Options, m *model.DB, o
 // c23CrashScan: what a kill leaves on disk must not contain plaintext either (WAL tails, value-log
 // tails, half-built tables, MANIFEST-REWRITE ...).
 func c23CrashScan(c *core.Ctx, work string) {
-	cfgs := []crashConfig{{"aes128+gc", 3, "gc", false, 4, 60}, {"aes256+snappy-off", 5, "deletes", false, 4, 60}, {"aes192", 9, "plain", false, 4, 60}}
+	cfgs := []crashConfig{{"aes128+gc", 3, "gc", false, 4, 60, 0}, {"aes256+snappy-off", 5, "deletes", false, 4, 60, 0}, {"aes192", 9, "plain", false, 4, 60, 0}}
 	r := c.Rand("c23-crash")
 	for i := 0; i < c.Pick(8, 60); i++ {
 		cfg := cfgs[i%len(cfgs)]
